@@ -17,6 +17,7 @@ from __future__ import annotations
 
 import collections
 import dataclasses
+import json
 
 from sexp import Sym
 
@@ -31,11 +32,16 @@ LEVEL_TEXT = ("Lean proof: for every nesting of list/tuple/set/dict/OrderedDict/
               "else changed (repack_unpack; iterators become lists), collections are deduplicated by token; with "
               "traverse=False only top-level collections are replaced (traverse_false); get_scheduler resolves by a fixed "
               "precedence over the extracted named_schedulers table (explicit > config > class > common default, "
-              "differing defaults rejected). The traversal model is diffed against dask.base.unpack_collections, the "
-              "scheduler choice against dask.base.get_scheduler; compute/persist/optimize are compared end to end with "
-              "per-collection compute over schedulers (sync, threads, processes, Executor) and optimize_graph.")
-LEVEL_NOTE = ("dataclass / namedtuple reconstruction (Python reflection), type and metadata preservation of persist/optimize "
-              "and scheduler independence are validated by the API-level oracle, not proved here (scheduler: C01).")
+              "differing defaults rejected); persist / optimize return the same structure with every collection replaced by "
+              "its rebuilt collection, and type, metadata and value are preserved position by position as soon as the "
+              "per-class __dask_postpersist__ rebuilds preserve them (persist_spec, persist_preserves). The traversal model "
+              "is diffed against dask.base.unpack_collections (incl. object leaves: list / tuple subclasses, frozensets, "
+              "Counters; generators), the scheduler choice against dask.base.get_scheduler; compute / persist / optimize on "
+              "nested arguments are compared end to end with per-collection compute over schedulers (sync, threads, "
+              "processes, Executor) and optimize_graph, incl. pipelines whose fused task names are cut.")
+LEVEL_NOTE = ("dataclass / namedtuple reconstruction (Python reflection), the per-class rebuilds of persist / optimize (type "
+              "and metadata of Array, Bag, Delayed, Series, DataFrame are compared by the oracle) and scheduler independence "
+              "are validated by the API-level oracle, not proved here (scheduler: C01).")
 TECHNIQUE = "Lean 4 proof (mutual structural induction with an extension-closed invariant on the collections list) + differential correspondence"
 ASSUMPTIONS = ["collections with equal tokens denote the same value (C12/C13)",
                "simple_get on the repack graph evaluates Task(type, List(...)) as type([...]) (C08)"]
@@ -64,6 +70,25 @@ class DC3:
     c: object
 
 
+@dataclasses.dataclass(kw_only=True)
+class KW1:
+    a: object
+
+
+@dataclasses.dataclass(kw_only=True)
+class KW2:
+    a: object
+    b: object
+
+
+@dataclasses.dataclass
+class KW3:          # one positional, two keyword-only fields
+    a: object
+    b: object = dataclasses.field(kw_only=True)
+    c: object = dataclasses.field(kw_only=True, default=None)
+
+
+DCS_KW = {1: KW1, 2: KW2, 3: KW3}
 NT1 = collections.namedtuple("NT1", "p")
 NT2 = collections.namedtuple("NT2", "p q")
 NT3 = collections.namedtuple("NT3", "p q r")
@@ -160,6 +185,11 @@ def build_tree2(spec, mk):
         return obj, [t, [[keyspec[id(k)], valspec[id(k)]] for k in obj]]
     if t in ("dc", "nt"):
         kids = [build_tree2(s, mk) for s in spec[2]]
+        if t == "dc" and spec[1] == 1:
+            # a dataclass with keyword-only fields (rebuilt by field name)
+            cls = DCS_KW[len(kids)]
+            names = [f.name for f in dataclasses.fields(cls)]
+            return cls(**dict(zip(names, [o for o, _ in kids]))), [t, spec[1], [a for _, a in kids]]
         cls = (DCS if t == "dc" else NTS)[len(kids)]
         return cls(*[o for o, _ in kids]), [t, spec[1], [a for _, a in kids]]
     raise ValueError(spec)
@@ -207,7 +237,7 @@ def canon(obj, val=lambda x: None):
         return ["tuple", [canon(x, val) for x in obj]]
     if type(obj) is set:
         return ["set", sorted((canon(x, val) for x in obj), key=repr)]
-    if type(obj) in DCS.values():
+    if type(obj) in DCS.values() or type(obj) in DCS_KW.values():
         fs = dataclasses.fields(obj)
         return ["dc", len(fs), [canon(getattr(obj, f.name), val) for f in fs]]
     if hasattr(obj, "__next__"):
@@ -297,6 +327,8 @@ def _branches(ctx, args, pref=""):
     for k in ("set", "dict", "odict", "dc", "nt", "iter", "tuple", "list"):
         if any(_has(a, (k,)) for a in args):
             ctx.branch(pref + k)
+    if '["dc", 1' in json.dumps(args):
+        ctx.branch(pref + "dataclass-keyword-only")
     _leaf_branches(ctx, args, pref)
     d = max([_depth(a) for a in args], default=0)
     ctx.branch(pref + f"depth{min(d, 4)}")
@@ -339,10 +371,14 @@ def case_unpack(ctx, inp):
     built = [build_tree2(a, FakeColl) for a in args]
     objs = [o for o, _ in built]
     args = [a for _, a in built]      # what the real objects hold, in their iteration order
-    colls, repack = unpack_collections(*objs, traverse=traverse)
-    real_colls = [c.tok for c in colls]
-    results = [1000 + t for t in real_colls]
-    out = repack([f"R{r}" for r in results])
+    try:
+        colls, repack = unpack_collections(*objs, traverse=traverse)
+        real_colls = [c.tok for c in colls]
+        results = [1000 + t for t in real_colls]
+        out = repack([f"R{r}" for r in results])
+    except Exception as e:
+        ctx.fail(f"unpack_collections / repack raised {type(e).__name__}: {str(e)[:120]}", observed=type(e).__name__)
+        return
 
     def val(x):
         if isinstance(x, str) and x.startswith("R"):
@@ -713,7 +749,8 @@ def case_persistn(ctx, inp):
 
     def lazy(x):
         if dask.is_dask_collection(x):
-            return ["lazy", type(x).__name__, _meta(x)]
+            # Delayed objects (the only collections used as dict keys / set elements) are told apart by their key
+            return ["lazy", type(x).__name__, _meta(x), x.key if type(x).__name__ == "Delayed" else None]
         if hasattr(x, "__next__"):
             return ["iter-untouched"]
         return None
@@ -721,7 +758,8 @@ def case_persistn(ctx, inp):
     def want_lazy(spec, top=True):
         t = spec[0]
         if t == "coll":
-            return ["lazy", type(table[spec[1]][0]).__name__, _meta(table[spec[1]][0])]
+            c = table[spec[1]][0]
+            return ["lazy", type(c).__name__, _meta(c), c.key if type(c).__name__ == "Delayed" else None]
         if t == "leaf":
             return ["leaf", spec[1]]
         if t in ("list", "iter", "gen"):
@@ -944,7 +982,7 @@ def gen_tree(rng, depth, ids, hashable=False, maxdepth=4):
         keys = _distinct([gen_tree(rng, depth + 2, ids, True, maxdepth) for _ in range(n)])
         return ["dict" if k == 3 else "odict", [[kk, gen_tree(rng, depth + 1, ids, False, maxdepth)] for kk in keys]]
     if k == 5:
-        return ["dc", 0, [gen_tree(rng, depth + 1, ids, False, maxdepth) for _ in range(rng.randint(1, 3))]]
+        return ["dc", rng.choice([0, 0, 1]), [gen_tree(rng, depth + 1, ids, False, maxdepth) for _ in range(rng.randint(1, 3))]]
     if k == 6:
         return ["nt", 0, [gen_tree(rng, depth + 1, ids, False, maxdepth) for _ in range(rng.randint(1, 3))]]
     if k == 7:
@@ -982,6 +1020,11 @@ def generate(ctx):
         ids = rng.sample(range(12), rng.randint(1, 5))
         args = [gen_tree(rng, 0, ids) for _ in range(rng.randint(0, 4))]
         yield "unpack", {"args": args, "traverse": rng.random() < 0.8}
+    # every argument structure up to depth 2 over {two collections, a string, a list subclass, a frozenset}
+    from props import _token_exhaustive as X
+    for i, case in enumerate(X.tree_cases()):
+        if ctx.thorough() or i % 4 == ctx.seed % 4:
+            yield case
     # function level: operand grouping
     # every sequence of optimizers (delayed / array / bag) up to length 4 (thorough: 6), then random longer ones
     import itertools
